@@ -1,6 +1,10 @@
 package odt
 
-import "encoding/xml"
+import (
+	"encoding/xml"
+	"strconv"
+	"strings"
+)
 
 // ODF XML namespaces
 const (
@@ -42,27 +46,115 @@ type bodyElement struct {
 }
 
 // paragraphXML represents a paragraph element (<text:p>).
+// Text is the complete text of the paragraph in document order (character
+// data, spans, links, <text:s>, <text:tab>, <text:line-break>); Spans lists
+// the spans for their formatting.
 type paragraphXML struct {
-	XMLName   xml.Name  `xml:"p"`
-	StyleName string    `xml:"style-name,attr"`
-	Spans     []spanXML `xml:"span"`
-	Text      string    `xml:",chardata"`
+	XMLName   xml.Name
+	StyleName string
+	Spans     []spanXML
+	Text      string
+}
+
+// UnmarshalXML reads the mixed content of the paragraph in document order.
+func (p *paragraphXML) UnmarshalXML(d *xml.Decoder, start xml.StartElement) error {
+	p.XMLName = start.Name
+	p.StyleName = attrValue(start, "style-name")
+	var sb strings.Builder
+	if err := collectInlineText(d, &sb, &p.Spans); err != nil {
+		return err
+	}
+	p.Text = sb.String()
+	return nil
 }
 
 // headingXML represents a heading element (<text:h>).
+// Text and Spans are filled as for paragraphXML.
 type headingXML struct {
-	XMLName      xml.Name  `xml:"h"`
-	StyleName    string    `xml:"style-name,attr"`
-	OutlineLevel string    `xml:"outline-level,attr"`
-	Spans        []spanXML `xml:"span"`
-	Text         string    `xml:",chardata"`
+	XMLName      xml.Name
+	StyleName    string
+	OutlineLevel string
+	Spans        []spanXML
+	Text         string
+}
+
+// UnmarshalXML reads the mixed content of the heading in document order.
+func (h *headingXML) UnmarshalXML(d *xml.Decoder, start xml.StartElement) error {
+	h.XMLName = start.Name
+	h.StyleName = attrValue(start, "style-name")
+	h.OutlineLevel = attrValue(start, "outline-level")
+	var sb strings.Builder
+	if err := collectInlineText(d, &sb, &h.Spans); err != nil {
+		return err
+	}
+	h.Text = sb.String()
+	return nil
 }
 
 // spanXML represents a text span with formatting (<text:span>).
+// Text is the text of the span including nested inline content.
 type spanXML struct {
-	XMLName   xml.Name `xml:"span"`
-	StyleName string   `xml:"style-name,attr"`
-	Text      string   `xml:",chardata"`
+	StyleName string
+	Text      string
+}
+
+// attrValue returns the value of the attribute with the given local name.
+func attrValue(start xml.StartElement, local string) string {
+	for _, attr := range start.Attr {
+		if attr.Name.Local == local {
+			return attr.Value
+		}
+	}
+	return ""
+}
+
+// collectInlineText appends the text of the current element's mixed content
+// to sb in document order, up to and including the element's end tag:
+// character data, <text:s> (spaces), <text:tab>, <text:line-break>, and the
+// content of <text:span>, <text:a> and other inline containers. Footnotes,
+// annotations, ruby text and frames are not part of the running text.
+func collectInlineText(d *xml.Decoder, sb *strings.Builder, spans *[]spanXML) error {
+	for {
+		tok, err := d.Token()
+		if err != nil {
+			return err
+		}
+		switch t := tok.(type) {
+		case xml.CharData:
+			sb.Write(t)
+		case xml.EndElement:
+			return nil
+		case xml.StartElement:
+			switch t.Name.Local {
+			case "s":
+				n := 1
+				if c, err := strconv.Atoi(attrValue(t, "c")); err == nil && c > 0 {
+					n = c
+				}
+				sb.WriteString(strings.Repeat(" ", n))
+				err = d.Skip()
+			case "tab":
+				sb.WriteString("\t")
+				err = d.Skip()
+			case "line-break":
+				sb.WriteString("\n")
+				err = d.Skip()
+			case "note", "annotation", "ruby-text", "frame":
+				err = d.Skip()
+			case "span":
+				idx := len(*spans)
+				*spans = append(*spans, spanXML{StyleName: attrValue(t, "style-name")})
+				from := sb.Len()
+				err = collectInlineText(d, sb, spans)
+				(*spans)[idx].Text = sb.String()[from:]
+			default:
+				err = collectInlineText(d, sb, spans)
+			}
+			if err != nil {
+				return err
+			}
+		}
+	}
 }
 
 // listXML represents a list (<text:list>).
